@@ -146,4 +146,5 @@ def main(tier, seed, replay=None):
     import tracecheck
     tracecheck.check_traces(ck, 'C01', names=['add', 'add_flat', 'add_dup', 'add_big', 'topack', 'pack_clean'])
     hist.run_histories(ck, 'C01', [('mixed', 40 if tier == 'quick' else 600, 15, False)])
-    return ck.finish()
+    import tracecheck as _tc
+    return ck.finish(search=_tc.crash_search(ck, ck.pid))
